@@ -40,9 +40,9 @@ def env_head(rng, pad=None):
 
 class Check(PropertyCheck):
     ID = "C18"
-    LEAN_MODULE = "JobShopProofs.MultiEnvFits"
+    LEAN_MODULE = "JobShopProofs.MultiEnvRewards"
     THEOREMS = ["JS.C18_observation_in_space", "JS.C18_step_returns_observation", "JS.C18_legal_action_in_space",
-                "JS.C18_done_truncated", "JS.C18_step_reward", "JS.C18_step_reward_reachable", "JS.C18_padObs", "JS.C18_multi_reset_config", "JS.C18_multi_instance_in_ranges", "JS.C18_multi_fits_classic",
+                "JS.C18_done_truncated", "JS.C18_step_reward", "JS.C18_step_reward_reachable", "JS.C18_padObs", "JS.C18_multi_reset_config", "JS.C18_multi_instance_in_ranges", "JS.C18_multi_fits_classic", "JS.C18_multi_step_reward", "JS.C18_multi_legal_action_classic",
                 "JS.Env.make_envOK", "JS.compositeCols_shape", "JS.residualUpdate_sizeLe"]
     RULE = ("random instances (10 families incl. flexible, zero durations, machine-id gaps) x filter x env configuration "
             "(4 graph builders, residual-updater options, reward, padding on/off, 1-4 feature observer configs with "
